@@ -88,19 +88,19 @@ func (dg *Defgeneric) reorg(edge int) int {
 func (dg *Defgeneric) adjoin(b []byte) []byte {
 	b = append(b, "(defgeneric"...)
 	if dg.name.newline() {
-		b = append(b, indent[:dg.name.left()+1]...)
+		b = appendIndent(b, dg.name.left()+1)
 	} else {
 		b = append(b, ' ')
 	}
 	b = dg.name.adjoin(b)
 	if dg.ll.newline() {
-		b = append(b, indent[:dg.ll.left()+1]...)
+		b = appendIndent(b, dg.ll.left()+1)
 	} else {
 		b = append(b, ' ')
 	}
 	b = dg.ll.adjoin(b)
 	for _, n := range dg.children {
-		b = append(b, indent[:n.left()+1]...)
+		b = appendIndent(b, n.left()+1)
 		b = n.adjoin(b)
 	}
 	return append(b, ')')
